@@ -1,7 +1,7 @@
 (* C17 — Emitted bytecode is well formed and the VM cannot be crashed.
    Property theorems only; proofs are [exact <lemma>]. *)
 From Coq Require Import ZArith NArith List String.
-From EvyV Require Import Base SymTab SymTabProofs Bytecode BytecodeProofs Vm VmProofs Compile CompileSem CompileWfProofs CompileSymProofs CompileCtlProofs CompileCoverProofs LocalInit LocalInitProofs.
+From EvyV Require Import Base SymTab SymTabProofs Bytecode BytecodeProofs Vm VmProofs Compile CompileSem CompileWfProofs CompileSymProofs CompileCtlProofs CompileCoverProofs LocalInit LocalInitProofs CompileInitProofs.
 Require Import EvyV.Gen.Opcodes.
 Import ListNotations.
 Open Scope N_scope.
@@ -196,6 +196,32 @@ Proof.
   apply (compile_wf_total p st HC HP HB).
 Qed.
 Print Assumptions C17_compile_vm_safe_all_partial.
+
+(* The compile side of definite initialisation: for every program the
+   compiler accepts that has no element store (plain_slist; _partial for that
+   reason only — loops, breaks, if chains, nested blocks, loop variables are
+   all covered), in every run of the VM model on the emitted code an
+   OpGetLocal about to execute reads a slot that an executed OpSetLocal has
+   written.  No validator run is involved: the certificate is built from the
+   compilation itself (CompileInitProofs.v) — one number per instruction, the
+   count k of live locals of the compiler's symbol table when the instruction
+   was emitted; live locals occupy the slots 0 .. k-1 (kof_resolve), so every
+   OpGetLocal the compiler emits for a resolved name is below k; a declaration
+   compiles its initialiser BEFORE it defines the symbol (the order the
+   round-4 seed reversed), and its OpSetLocal writes exactly slot k
+   (kof_define); loop variables are set (OpNone; OpSetLocal) before the range
+   instruction; leaving a block only lowers k; jumps back to a loop head and
+   break jumps arrive with at least the k of the loop head.  LINITK is the
+   judgment, linitk_safe its soundness against the VM model, p_all the
+   induction over the layout LY of compiled statements. *)
+Theorem C17_compile_linit_safe_partial : forall (p : slist) (st : cstate),
+  compile p = COk st -> plain_slist p = true -> nb_slist p = true ->
+  let prog := program_of (bytecode_of st) in
+  forall s w, reach_w prog s w ->
+  forall i, fetch prog s = Some i -> ip s < N.of_nat (List.length (pcode prog)) ->
+            opc_of_N (iop i) = Some GetLocal -> In (arg0 i) w.
+Proof. exact compile_linit_safe_plain. Qed.
+Print Assumptions C17_compile_linit_safe_partial.
 
 (* Every LOCAL symbol any Define/Resolve of the history returned has an index
    below the root's nestedMaxIndex once all open scopes are popped, i.e. below
